@@ -75,8 +75,40 @@ func (w *World) rulesAutomaton(p *Pkg, m *parseModel, add func(ok bool, rule, in
 	cand := map[types.Object]bool{}
 	var candOrder []types.Object
 	for _, s := range fd.Body.List {
-		if s == m.loop {
+		if s == m.loopTop {
 			break
+		}
+		// `var group int` (no initialiser): starts at 0
+		if ds, ok := s.(*ast.DeclStmt); ok {
+			if gd, ok := ds.Decl.(*ast.GenDecl); ok && gd.Tok == token.VAR {
+				for _, sp := range gd.Specs {
+					vs := sp.(*ast.ValueSpec)
+					if len(vs.Values) != 0 {
+						continue
+					}
+					for _, nm := range vs.Names {
+						o := info.Defs[nm]
+						if o == nil {
+							continue
+						}
+						if b, ok := o.Type().Underlying().(*types.Basic); !ok || b.Kind() != types.Int {
+							continue
+						}
+						assigned := false
+						for _, t := range tail {
+							if assignedIn(info, t, o) {
+								assigned = true
+							}
+						}
+						if assigned {
+							cand[o] = true
+							candOrder = append(candOrder, o)
+							init[o] = 0
+						}
+					}
+				}
+			}
+			continue
 		}
 		as, ok := s.(*ast.AssignStmt)
 		if !ok || as.Tok != token.DEFINE {
@@ -108,12 +140,30 @@ func (w *World) rulesAutomaton(p *Pkg, m *parseModel, add func(ok bool, rule, in
 			init[o] = int64(u)
 		}
 	}
+	// derived locals: integers defined inside the step (the counter of an inner
+	// search loop, `for k := next; …`) whose every assignment reads cursor
+	// variables, constants, tables and other derived locals only — their value is
+	// a function of the cursor state, so an assignment `next = k + 1` keeps
+	// `next` a cursor variable
+	derived := map[types.Object]bool{}
+	for _, t := range tail {
+		ast.Inspect(t, func(n ast.Node) bool {
+			if as, ok := n.(*ast.AssignStmt); ok && as.Tok == token.DEFINE {
+				for _, l := range as.Lhs {
+					if o := identObj(info, l); o != nil && isIntT(o.Type()) {
+						derived[o] = true
+					}
+				}
+			}
+			return true
+		})
+	}
 	// locals other than candidates mentioned by an expression
 	foreignLocal := func(e ast.Node) bool {
 		bad := false
 		ast.Inspect(e, func(n ast.Node) bool {
 			if id, ok := n.(*ast.Ident); ok {
-				if v, ok := info.Uses[id].(*types.Var); ok && v.Parent() != p.P.Types.Scope() && !v.IsField() && !cand[v] {
+				if v, ok := info.Uses[id].(*types.Var); ok && v.Parent() != p.P.Types.Scope() && !v.IsField() && !cand[v] && !derived[v] {
 					// the element's abbreviation may steer the cursor (it is what the order
 					// table is compared with): each step is evaluated per abbreviation
 					if types.Object(v) == m.abvObj {
@@ -129,12 +179,38 @@ func (w *World) rulesAutomaton(p *Pkg, m *parseModel, add func(ok bool, rule, in
 	for changed := true; changed; {
 		changed = false
 		ast.Inspect(m.loop, func(n ast.Node) bool {
+			if rs, ok := n.(*ast.RangeStmt); ok {
+				// a range variable takes its values from the ranged operand
+				for _, kv := range []ast.Expr{rs.Key, rs.Value} {
+					if kv == nil {
+						continue
+					}
+					if o := identObj(info, kv); o != nil && derived[o] && foreignLocal(rs.X) {
+						delete(derived, o)
+						changed = true
+					}
+				}
+				return true
+			}
 			as, ok := n.(*ast.AssignStmt)
 			if !ok {
 				return true
 			}
 			for i, l := range as.Lhs {
 				o := identObj(info, l)
+				if o != nil && derived[o] {
+					var rhs ast.Expr
+					if len(as.Rhs) == len(as.Lhs) {
+						rhs = as.Rhs[i]
+					} else if len(as.Rhs) == 1 {
+						rhs = as.Rhs[0]
+					}
+					if rhs == nil || foreignLocal(rhs) {
+						delete(derived, o)
+						changed = true
+					}
+					continue
+				}
 				if o == nil || !cand[o] {
 					continue
 				}
@@ -254,7 +330,7 @@ func (w *World) rulesAutomaton(p *Pkg, m *parseModel, add func(ok bool, rule, in
 	var post []ast.Stmt
 	seenLoop := false
 	for _, s := range fd.Body.List {
-		if s == m.loop {
+		if s == m.loopTop {
 			seenLoop = true
 			continue
 		}
@@ -303,7 +379,7 @@ func (w *World) rulesAutomaton(p *Pkg, m *parseModel, add func(ok bool, rule, in
 	// locals declared `var x T` (no initialiser) before the loop start at T's zero value
 	zeroDecl := map[types.Object]bool{}
 	for _, s := range fd.Body.List {
-		if s == m.loop {
+		if s == m.loopTop {
 			break
 		}
 		if ds, ok := s.(*ast.DeclStmt); ok {
@@ -377,6 +453,11 @@ func (w *World) rulesAutomaton(p *Pkg, m *parseModel, add func(ok bool, rule, in
 				return outcome{kind: "panic", msg: pe.msg + " at " + p.posAt(pe.pos)}, nil
 			}
 			return outcome{}, err
+		}
+		// `continue scan` / `break scan` aimed at the element loop itself
+		ct = ce.ownBranch(ct, m.loopLabel)
+		if ct == cBreakL || ct == cContinueL {
+			return outcome{}, fmt.Errorf("branch to label %s, which is not the element loop", ce.brLabel)
 		}
 		switch ct {
 		case cReturn:
@@ -819,12 +900,19 @@ func (p *Pkg) freeStep(m *parseModel, kvmCall *ast.CallExpr) freeStepVerdict {
 			ce.vars[m.objVar] = Val{K: VOpaque, S: "obj"}
 		}
 		ct, v, err = ce.execBlock(cont)
+		if err == nil {
+			ct = ce.ownBranch(ct, m.loopLabel)
+			if ct == cBreakL || ct == cContinueL {
+				err = fmt.Errorf("branch to label %s, which is not the element loop", ce.brLabel)
+				return
+			}
+		}
 		if err == nil && ct == cBreak {
 			// single-exit style: the loop is left, the statements after it answer
 			var post []ast.Stmt
 			seen := false
 			for _, s := range m.fd.Body.List {
-				if s == m.loop {
+				if s == m.loopTop {
 					seen = true
 					continue
 				}
